@@ -13,6 +13,7 @@ import (
 	"archive/zip"
 	"context"
 	"fmt"
+	"io"
 	"os"
 	"path"
 	"path/filepath"
@@ -58,12 +59,15 @@ type Scenario struct {
 	Kind     string            `json:"kind"`
 	Name     string            `json:"probe_name"`
 	Plugins  []PluginSpec      `json:"plugins"`
-	Pre      map[string]string `json:"pre_existing,omitempty"` // files of a "previous run", relative to base
+	Pre      map[string]string `json:"pre_existing,omitempty"`      // files of a "previous run", relative to base
+	PreDirs  []string          `json:"pre_existing_dirs,omitempty"` // empty directories that exist before the run, relative to base
 	UseCwd   bool              `json:"relative_to_cwd,omitempty"`
 	Outcome  string            `json:"outcome,omitempty"`
 }
 
-func isArchive(out string) bool { return strings.HasSuffix(out, ".zip") || strings.HasSuffix(out, ".jar") }
+func isArchive(out string) bool {
+	return strings.HasSuffix(out, ".zip") || strings.HasSuffix(out, ".jar")
+}
 
 // outAbs is the absolute, clean location of a plugin's out.
 func outAbs(base, out string) string {
@@ -285,6 +289,8 @@ type RespStats struct {
 	InvalidNames, InvalidRejected                int
 	InsertionApplied, PlainWritten, ArchiveCases int
 	ErrValidate, ErrAdd, ErrClose                int
+	ArchiveEntryWritten, ArchiveEntriesRead      int
+	SuccessByConfig                              map[string]int // out configuration label -> successful runs
 }
 
 func (s *RespStats) add(o *RespStats) {
@@ -302,6 +308,14 @@ func (s *RespStats) add(o *RespStats) {
 	s.ErrValidate += o.ErrValidate
 	s.ErrAdd += o.ErrAdd
 	s.ErrClose += o.ErrClose
+	s.ArchiveEntryWritten += o.ArchiveEntryWritten
+	s.ArchiveEntriesRead += o.ArchiveEntriesRead
+	for k, v := range o.SuccessByConfig {
+		if s.SuccessByConfig == nil {
+			s.SuccessByConfig = map[string]int{}
+		}
+		s.SuccessByConfig[k] += v
+	}
 }
 
 func (s *RespStats) asMap() map[string]int {
@@ -312,11 +326,17 @@ func (s *RespStats) asMap() map[string]int {
 		"probe_names_leaving_out_dir_rejected": s.InvalidRejected, "insertions_applied_and_verified": s.InsertionApplied,
 		"plain_files_written_and_verified": s.PlainWritten, "archive_cases": s.ArchiveCases,
 		"errors_from_validate": s.ErrValidate, "errors_from_add_response": s.ErrAdd, "errors_from_close": s.ErrClose,
+		"archive_entries_written_and_verified": s.ArchiveEntryWritten, "archive_entries_read_for_containment": s.ArchiveEntriesRead,
 	}
 }
 
 // prepare writes the files of the "previous run".
 func (fx *respFixture) prepare(s *Scenario) error {
+	for _, rel := range s.PreDirs {
+		if err := os.MkdirAll(filepath.Join(fx.base, rel), 0o755); err != nil {
+			return err
+		}
+	}
 	for rel, content := range s.Pre {
 		p := filepath.Join(fx.base, rel)
 		if err := os.MkdirAll(filepath.Dir(p), 0o755); err != nil {
@@ -338,6 +358,11 @@ func (fx *respFixture) judge(s *Scenario, failed bool, st *RespStats, report fun
 		st.Errors++
 	} else {
 		st.Successes++
+		if st.SuccessByConfig == nil {
+			st.SuccessByConfig = map[string]int{}
+		}
+		label, _, _ := strings.Cut(s.Kind, "/")
+		st.SuccessByConfig[label]++
 	}
 	if isArchive(s.Plugins[0].Out) {
 		st.ArchiveCases++
@@ -406,6 +431,30 @@ func (fx *respFixture) judge(s *Scenario, failed bool, st *RespStats, report fun
 			}
 		}
 	}
+	// S2 inside archives: an archive is the output location of exactly the plugins configured with it, so an
+	// entry of the archive may only carry content of those plugins - also when the archive lies below another
+	// plugin's out directory (the raw-bytes test above cannot tell: archives are stored uncompressed and the
+	// path of the archive is below that directory)
+	entries := map[string]map[string]string{} // archive path -> entry name -> content
+	for _, p := range bufx.SortedKeys(all) {
+		if strings.HasSuffix(p, "/") || !isArchive(p) {
+			continue
+		}
+		ents, readable := archiveEntries(all[p])
+		if !readable {
+			continue // S4 reports unreadable archives of successful runs
+		}
+		entries[p] = ents
+		for _, n := range bufx.SortedKeys(ents) {
+			st.ArchiveEntriesRead++
+			for i := range s.Plugins {
+				pl := &s.Plugins[i]
+				if strings.Contains(ents[n], tag(pl.ID)) && outAbs(fx.base, pl.Out) != p {
+					report("containment/content-outside-own-out-dir", fmt.Sprintf("content of plugin %s (out %s) was written to entry %q of the archive %s", pl.ID, pl.Out, n, strings.ReplaceAll(p, fx.root, "<root>")))
+				}
+			}
+		}
+	}
 	for rel, content := range s.Pre {
 		p := filepath.Join(fx.base, rel)
 		if exp.Produced[p] {
@@ -443,6 +492,11 @@ func (fx *respFixture) judge(s *Scenario, failed bool, st *RespStats, report fun
 	}
 	// non-vacuity: verify the positive effect on success
 	if !failed {
+		if normal, valid := validName(probeEntry.Name); valid && isArchive(outAbs(fx.base, probe.Out)) {
+			if got, exists := entries[outAbs(fx.base, probe.Out)][normal]; exists && probeEntry.InsertionPoint == "" && got == probeEntry.Content {
+				st.ArchiveEntryWritten++
+			}
+		}
 		if normal, valid := validName(probeEntry.Name); valid && !isArchive(outAbs(fx.base, probe.Out)) {
 			got, exists := all[entryLocation(fx.base, &probe, normal)]
 			if probeEntry.InsertionPoint == "" {
@@ -461,24 +515,63 @@ func (fx *respFixture) judge(s *Scenario, failed bool, st *RespStats, report fun
 	return ok
 }
 
+// archiveEntries lists a zip/jar held in memory: entry name -> content.
+func archiveEntries(raw string) (map[string]string, bool) {
+	zr, err := zip.NewReader(strings.NewReader(raw), int64(len(raw)))
+	if err != nil {
+		return nil, false
+	}
+	out := map[string]string{}
+	for _, f := range zr.File {
+		rc, err := f.Open()
+		if err != nil {
+			return nil, false
+		}
+		b, err := io.ReadAll(rc)
+		rc.Close()
+		if err != nil {
+			return nil, false
+		}
+		out[f.Name] = string(b)
+	}
+	return out, true
+}
+
 // ---------------------------------------------------------------- scenarios
 
 type outConfig struct {
-	class string
-	label string
-	outs  []string
+	class   string
+	label   string
+	outs    []string
+	preDirs []string // directories that exist before the run (the parent of an archive out must exist, see NOTES.md)
 }
 
 var outConfigs = []outConfig{
-	{"same-out", "single", []string{"o1"}},
-	{"same-out", "shared", []string{"o1", "o1"}},
-	{"respelled-out", "shared-respelled", []string{"o1", "o1/."}},
-	{"disjoint-outs", "disjoint", []string{"o1", "o2"}},
-	{"nested-outs", "nested-inner", []string{"o1", "o1/a.b"}},
-	{"nested-outs", "nested-outer", []string{"o1/a.b", "o1"}},
-	{"same-out", "zip", []string{"o1.zip"}},
-	{"same-out", "jar", []string{"o1.jar"}},
-	{"same-out", "zip-shared", []string{"o1.zip", "o1.zip"}},
+	{"same-out", "single", []string{"o1"}, nil},
+	{"same-out", "shared", []string{"o1", "o1"}, nil},
+	{"respelled-out", "shared-respelled", []string{"o1", "o1/."}, nil},
+	{"disjoint-outs", "disjoint", []string{"o1", "o2"}, nil},
+	{"nested-outs", "nested-inner", []string{"o1", "o1/a.b"}, nil},
+	{"nested-outs", "nested-outer", []string{"o1/a.b", "o1"}, nil},
+	{"same-out", "zip", []string{"o1.zip"}, nil},
+	{"same-out", "jar", []string{"o1.jar"}, nil},
+	{"same-out", "zip-shared", []string{"o1.zip", "o1.zip"}, nil},
+	// round 2: an archive out is a location of its own. Every way in which it can sit next to another plugin's
+	// location: its parent directory is the other plugin's out (both orders, zip and jar), a sibling archive in the
+	// same directory (same and different kind, both orders), a directory with the archive's stem (both orders),
+	// an archive deeper inside the other plugin's out, and two archives with one entry name in different directories
+	{"archive-in-out-dir", "dir-then-zip-inside", []string{"o2", "o2/x.zip"}, []string{"o2"}},
+	{"archive-in-out-dir", "zip-inside-then-dir", []string{"o2/x.zip", "o2"}, []string{"o2"}},
+	{"archive-in-out-dir", "dir-then-jar-inside", []string{"o2", "o2/x.jar"}, []string{"o2"}},
+	{"archive-in-out-dir", "jar-inside-then-dir", []string{"o2/x.jar", "o2"}, []string{"o2"}},
+	{"archive-in-out-dir", "dir-then-zip-deeper", []string{"o2", "o2/d/x.zip"}, []string{"o2/d"}},
+	{"archive-in-out-dir", "zip-deeper-then-dir", []string{"o2/d/x.zip", "o2"}, []string{"o2/d"}},
+	{"sibling-archives", "zip-zip", []string{"o2/x.zip", "o2/y.zip"}, []string{"o2"}},
+	{"sibling-archives", "zip-jar", []string{"o1.zip", "o1.jar"}, nil},
+	{"sibling-archives", "jar-zip", []string{"o1.jar", "o1.zip"}, nil},
+	{"archive-and-stem-dir", "zip-then-stem-dir", []string{"o1.zip", "o1"}, nil},
+	{"archive-and-stem-dir", "stem-dir-then-zip", []string{"o1", "o1.zip"}, nil},
+	{"archives-in-two-dirs", "same-name-two-dirs", []string{"o1/x.zip", "o2/x.zip"}, []string{"o1", "o2"}},
 }
 
 var respKinds = []string{"plain", "insert-own-file", "insert-previous-run", "insert-other-plugin", "insert-absent"}
@@ -501,7 +594,7 @@ func scenariosFor(oc outConfig, name string) []*Scenario {
 			continue
 		}
 		for _, withContent := range []bool{false, true} {
-			s := &Scenario{Half: "B", OutClass: oc.class, Kind: oc.label + "/" + kind, Name: name}
+			s := &Scenario{Half: "B", OutClass: oc.class, Kind: oc.label + "/" + kind, Name: name, PreDirs: oc.preDirs}
 			for i, o := range oc.outs {
 				s.Plugins = append(s.Plugins, PluginSpec{ID: fmt.Sprintf("P%d", i+1), Out: o})
 			}
@@ -619,10 +712,19 @@ func runResponses(r *evid.Run, scratch string, names []string) {
 		fixtures <- fx
 	})
 	r.Set("B_clause_counts", total.asMap())
+	r.Set("B_successful_runs_by_out_config", total.SuccessByConfig)
+	if !r.Expired() {
+		for _, oc := range outConfigs {
+			if total.SuccessByConfig[oc.label] == 0 {
+				r.Incomplete("half B: no run of out configuration " + oc.label + " succeeded (configuration is vacuous)")
+			}
+		}
+	}
 	if !r.Expired() {
 		for name, n := range map[string]int{"duplicate demanded": total.MustDup, "insertion previous run demanded": total.MustInsPrev,
 			"insertion absent demanded": total.MustInsAbsent, "names leaving the out dir": total.InvalidNames,
-			"insertion applied": total.InsertionApplied, "plain written": total.PlainWritten, "validate errors": total.ErrValidate} {
+			"insertion applied": total.InsertionApplied, "plain written": total.PlainWritten, "validate errors": total.ErrValidate,
+			"archive entry written": total.ArchiveEntryWritten, "archive entries read": total.ArchiveEntriesRead} {
 			if n == 0 {
 				r.Incomplete("half B never exercised: " + name)
 			}
@@ -670,7 +772,7 @@ func runRelVsAbs(r *evid.Run, scratch string) {
 	st := &RespStats{}
 	names := c13.Paths(1)
 	sort.Strings(names)
-	for _, oc := range []outConfig{{"relative-vs-absolute-out", "rel-then-abs", []string{"o1", absToken + "/o1"}}, {"relative-vs-absolute-out", "abs-then-rel", []string{absToken + "/o1", "o1"}}} {
+	for _, oc := range []outConfig{{"relative-vs-absolute-out", "rel-then-abs", []string{"o1", absToken + "/o1"}, nil}, {"relative-vs-absolute-out", "abs-then-rel", []string{absToken + "/o1", "o1"}, nil}} {
 		for _, name := range names {
 			for _, s := range scenariosFor(oc, name) {
 				s.UseCwd = true
